@@ -92,6 +92,32 @@ def gen_call(family, rng, tier):
             constraints=[], placer="sa-py", easy=False,
             kw=dict(effort=rng.choice([0.1, 0.3, 0.5]),
                     seed=rng.randrange(1 << 30), stop_after=None)))
+    if family == "place" and rng.random() < .2:
+        # bin packing: mixed vertex sizes filling 85-100% of a small
+        # machine.  The annealer's random greedy first placement may or may
+        # not fit; whether it does, and what comes out, is decided by the
+        # caller's seeded generator alone
+        w, h = rng.choice([(2, 2), (3, 2), (3, 3), (4, 4), (1, 5)])
+        per = rng.randint(8, 17)
+        cap = w * h * per
+        want = int(cap * rng.uniform(.85, 1.0))
+        sizes = []
+        while sum(sizes) < want:
+            sizes.append(min(rng.choice([1, 2, 3, 3, 4, 4, 5, 6]),
+                             want - sum(sizes)))
+        nv = len(sizes)
+        nets_ = [(rng.randrange(nv), [rng.randrange(nv)
+                                      for _ in range(rng.randint(1, 3))], 1.0)
+                 for _ in range(rng.randint(1, 6))]
+        return ("place", dict(
+            machine=dict(w=w, h=h, res={"Cores": per, "SDRAM": 10},
+                         exc={}, dead_chips=[], dead_links=[]),
+            vertices=[(v, {"Cores": n}) for v, n in enumerate(sizes)],
+            nets=nets_, constraints=[],
+            placer=rng.choice(["sa-py", "sa-py", "sa-c", "rand"]),
+            easy=False,
+            kw=dict(effort=rng.choice([0.0, 0.0, 0.05]),
+                    seed=rng.randrange(1 << 30), stop_after=None)))
     if family == "place":
         c = c02.gen(rng.choice(["easy", "general", "groups", "tight"]),
                     rng.randrange(1000), rng, "quick")
@@ -358,12 +384,25 @@ def preload():
         importlib.import_module(m)
 
 
-def execute(desc, ctx=None, mutate=False, seed=0):
+GLOBAL_RANDOM_FREE = ("place", "minimise", "bitfield")
+
+
+def execute(desc, ctx=None, mutate=False, seed=0, scramble=False):
     """Run one call descriptor.  -> JSON-able structural result (or
     ("raised", type name)).  Raises Violation when an argument changed."""
     imp = importlib.import_module
     kind = desc[0]
     _random.seed(seed)
+    if scramble and kind in GLOBAL_RANDOM_FREE:
+        # Only the router's documented tie-breaks draw from the process-wide
+        # random module.  A placer is handed its own seeded generator (or
+        # uses none), minimisers and bit fields use none: what they return
+        # may not depend on the state earlier calls left the process-wide
+        # generator in, so for these the two sides start it differently.
+        _random.seed(seed * 31 + 17)
+        _random.random()
+        if ctx is not None:
+            ctx.hit("process_wide_random_differs")
     if kind == "place":
         case = desc[1]
         exc = imp("rig.place_and_route.exceptions")
@@ -755,7 +794,8 @@ def run(case, ctx):
             mutated = True
             ctx.hit("returned_object_mutated")
     try:
-        here = execute(case["probe"], ctx, mutate=False, seed=case["seed"])
+        here = execute(case["probe"], ctx, mutate=False, seed=case["seed"],
+                       scramble=True)
     except Violation:
         raise
     except Exception as e:
